@@ -195,7 +195,7 @@ func TestXTime(t *testing.T) {
 		writeRuns(w, &runs, evs, leak, msg, Ev{})
 	}
 	// SleepContext: every combination of duration x deadline position x cancellation moment
-	const hour = 600 * 1000 * 1000 // "long": 10 min in microseconds (TLC integers are 32 bit)
+	const hour = 600 * 1000 * 1000                              // "long": 10 min in microseconds (TLC integers are 32 bit)
 	for _, d := range []int{-5, 0, 1, 100, 1000, 20000, hour} { // microseconds
 		dls := []int{-1, 0, 1, d / 2, d - 100, d - 1, d, d + 1, d + 350, 2 * d, 2 * hour}
 		for _, dl := range dls {
